@@ -12,7 +12,7 @@ RULE = ("Hypothesis programs (1-2 files, optional includes, constants that alias
         "0o100 incl. 0, values near 0o177700 whose addresses pass 0o177777). Oracles: (1) law on pdpy11's own three images: a word "
         "differs between two bases iff the reference assembler marks it as an absolute address word, and then by exactly the base "
         "difference mod 2^16; programs with no absolute word are byte-identical; (2) each image equals the reference image; bases for "
-        "which an absolute word would not fit 16 bits must be refused. Non-trivial: >= 1 absolute word and >= 1 relative "
+        "which an absolute word would not fit 16 bits must be refused; (3) the .bin container of each image holds the whole image. Non-trivial: >= 1 absolute word and >= 1 relative "
         "self-reference; distinct = distinct program text.")
 ASSUMPTIONS = ["address words are 16-bit words: .dword operands are base-free here (a 32-bit address would carry into its high word)", "bases are multiples of 0o100 so that .even/.align padding does not change with the base (layout independence is a "
                "precondition of the law)", "vf/model.py tells which words hold absolute addresses (affine coefficient of the base != 0)"]
@@ -77,6 +77,15 @@ def judge(prog, bases):
         res = progcheck.compare(r, out, texts)
         if res:
             fails.append((f"base-{'wrap' if b >= 0o157700 else 'plain'}:" + res[0], f"at base {b:o}: " + res[1]))
+    # what reaches the user is the container: the .bin form of every image must hold all of it, also when its addresses wrap
+    from .. import driver
+    from ..ref import codecs
+    for b, p, r, out, texts in results:
+        if out.kind == "ok" and not fails:
+            blob = driver.pd().formats.file_formats["bin"](out.base, out.code)
+            hb, hn = struct.unpack("<HH", blob[:4]) if len(blob) >= 4 else (None, None)
+            if (hb, hn) != (out.base & 0xFFFF, len(out.code) & 0xFFFF) or blob[4:] != out.code:
+                fails.append((f"container-{'wrap' if b >= 0o157700 else 'plain'}", f"at base {b:o}: the .bin container has header ({hb}, {hn}) and {len(blob) - 4} payload bytes for an image of {len(out.code)} bytes"))
     info = {"absolute": 0, "ok_bases": 0}
     oks = [(b, r, out, texts) for b, p, r, out, texts in results if r.kind == "ok" and out.kind == "ok"]
     info["ok_bases"] = len(oks)
